@@ -97,12 +97,6 @@ def Dns.Wf (m : Dns.DnsMessage) : Prop :=
 
 instance (m : Dns.DnsMessage) : Decidable (Dns.Wf m) := by unfold Dns.Wf; infer_instance
 
-/-- "google.com" query as the client builds it -/
-def Dns.example1 : Dns.DnsMessage :=
-  { header := Dns.newHeader 1337 false,
-    question := Dns.newQuestion [0x67, 0x6f, 0x6f, 0x67, 0x6c, 0x65, 0x2e, 0x63, 0x6f, 0x6d],
-    answer := Dns.newRecord [0x67, 0x6f, 0x6f, 0x67, 0x6c, 0x65, 0x2e, 0x63, 0x6f, 0x6d] 1600 168496141 }
-
 example : Dns.Wf Dns.example1 := by decide
 example : ¬ Dns.Wf { Dns.example1 with question := Dns.newQuestion [0x61, Dns.delim, 0x62] } := by
   decide
